@@ -409,6 +409,12 @@ fn run_pairs(cx: &mut Ctx) {
 
 fn sort_elem(rng: &mut Rng, kind: usize) -> V {
     match kind {
+        4 => match rng.below(6) {
+            0 | 1 => V::I(rng.range(0, 6)),
+            2 | 3 => vs(*rng.pick(&["a", "b", "c", "x"])),
+            4 => V::Bool(rng.chance(1, 2)),
+            _ => V::T(vec![V::I(rng.range(0, 2))]),
+        },
         0 => V::I(rng.range(-3, 6)),
         1 => {
             // mixed int / float with equal values written differently (stability is observable)
@@ -463,9 +469,14 @@ fn sorted_stable_perm(vm: &mut KotoVm, input: &[V], output: &[V], key: &dyn Fn(&
 fn run_sorts(cx: &mut Ctx, rng: &mut Rng, count: usize) {
     let mut vm = KotoVm::default();
     for it in 0..count {
-        let kind = rng.below(4);
+        let mut kind = rng.below(4);
         let len = if rng.chance(1, 8) { rng.below(40) } else { rng.below(9) };
         let mode = rng.below(4); // 0 list.sort, 1 sort by key on (key, tag), 2 tuple.sort_copy, 3 map.sort
+        // map.sort() with keys of mixed kinds (F-C14-5): numbers, strings, bools, tuples, ranges
+        let mixed = mode == 3 && rng.chance(1, 3);
+        if mixed {
+            kind = 4;
+        }
         let elems: Vec<V> = (0..len).map(|_| sort_elem(rng, kind)).collect();
         let (input, req, script): (V, String, &str) = match mode {
             0 => (V::LV(elems.clone()), format!("sortvals {}", V::LV(elems.clone()).canon()), "input.sort()\nkv_out input\n"),
@@ -515,7 +526,23 @@ fn run_sorts(cx: &mut Ctx, rng: &mut Rng, count: usize) {
                 // null keys sort first; the rest by `<`
                 let nn = |xs: &[V]| xs.iter().filter(|x| !matches!(x, V::T(e) if e[0] == V::Null)).cloned().collect::<Vec<_>>();
                 let nulls_first = ov.iter().position(|x| matches!(x, V::T(e) if e[0] == V::Null)).map(|p| p == 0).unwrap_or(true);
-                if !nulls_first {
+                if mixed {
+                    // permutation + no comparable pair out of order (judged with the implementation's `<`)
+                    let keys = |xs: &[V]| xs.iter().map(|x| match x { V::T(e) => e[0].clone(), v => v.clone() }).collect::<Vec<_>>();
+                    let (ik, ok) = (keys(&iv), keys(&ov));
+                    let (mut a, mut b): (Vec<String>, Vec<String>) = (ik.iter().map(|x| x.canon()).collect(), ok.iter().map(|x| x.canon()).collect());
+                    a.sort();
+                    b.sort();
+                    let mut why = if a != b { Some("not a permutation".to_string()) } else { None };
+                    for x in 0..ok.len() {
+                        for y in x + 1..ok.len() {
+                            if why.is_none() && impl_lt(&mut vm, &ok[y], &ok[x]) {
+                                why = Some(format!("F-C14-5: {} before {}", ok[x].canon(), ok[y].canon()));
+                            }
+                        }
+                    }
+                    why
+                } else if !nulls_first {
                     Some("null key not first".into())
                 } else {
                     sorted_stable_perm(&mut vm, &nn(&iv), &nn(&ov), &|x| match x { V::T(e) => e[0].clone(), v => v.clone() })
@@ -524,7 +551,8 @@ fn run_sorts(cx: &mut Ctx, rng: &mut Rng, count: usize) {
             _ => Some("unexpected output shape".into()),
         };
         if let Some(why) = bad {
-            cx.d_violation("sort_sorted_perm_stable", json!({"kind": "sort", "request": req, "impl": got, "why": why}));
+            let f5 = if mixed && why.starts_with("F-C14-5") { Some("F-C14-5") } else { None };
+            cx.d_or_known("sort_sorted_perm_stable", f5, json!({"kind": "sort", "request": req, "impl": got, "why": why}));
         }
     }
 }
